@@ -28,6 +28,7 @@ from dataclasses import dataclass, field
 from .core import AnalysisError, dotted, norm
 
 MAX_PATHS = 64
+DIGEST_BYTES = 32          # SHA-256, the only hash the interpreter models
 MAX_ITER = 512
 
 
@@ -311,7 +312,9 @@ class TermEval:
             if isinstance(base, list):
                 return type(base)(base[s]) if not isinstance(base, ByteArray) else ByteArray(base[s])
             if isinstance(base, Digest):
-                return NotImplemented
+                # a SHA-256 digest has 32 bytes: a slice is the list of its byte terms
+                idxs = list(range(DIGEST_BYTES))[s]
+                return [Xor(frozenset({('byte', base, i)})) for i in idxs]
             if isinstance(base, Opaque):
                 return Opaque(f'{base.text}[{"" if parts[0] is None else parts[0]}:'
                               f'{"" if parts[1] is None else parts[1]}'
@@ -346,6 +349,8 @@ class TermEval:
             return list(it)
         if isinstance(it, SymStr):
             return [SymStr((a,), it.kind) for a in it.atoms]
+        if isinstance(it, Digest):
+            return [Xor(frozenset({('byte', it, i)})) for i in range(DIGEST_BYTES)]
         if isinstance(it, str):
             return list(it)
         return None
